@@ -97,13 +97,38 @@ def run (ctx):
   ctx.ob('R-EFFECT', gi, "a missing key raises instead of yielding None", bool(ends) and not falls, "falls through to raise IndexError" if not falls else "lookup can fall off the end and return None: membership tests succeed for absent ports", gi, 'D1')
   ks = M('keys'); ctx.analysed(ks)
   txt = [norm(c) for c in calls_in(ks.node)]
-  good = any('difference_update(self._masks)' in t for t in txt) and any(t.startswith('set(self._chain.keys())') for t in txt) and any('.update([p.port_no for p in self._ports])' in t for t in txt)
   g = q.cfg_of(ks)
-  du = g.nodes_with_call(lambda c: call_name(c) == 'difference_update'); ud = g.nodes_with_call(lambda c: call_name(c) == 'update')
-  order = bool(du) and bool(ud) and ud[0] not in [x for x in g.reachable(g.entry, avoid=du) if 'self._chain:truthy' in q.fact_strs(g, x)]
-  ctx.ob('R-AGREE', ks, "keys = originally reported numbers minus masked ones plus own", good, "chain keys, difference_update(masks), update(own)" if good else "keys() is computed as %s" % txt, ks, 'D1')
-  if du and ud:
-    ctx.ob('R-ORDER', ks, "masks are applied before the own ports are merged in", ud[0] in g.reachable(du[0]) and du[0] not in g.reachable(ud[0]), "difference_update precedes update" , ks, 'D1')
+  # decided by evaluation: originally reported {1,2,3}, number 2 masked, own set holds port 4 -> {1,3,4}; no chain -> {4}
+  chk = (lambda e: isinstance(e, ast.Call) and call_name(e) == 'keys' and '_chain' in norm(e.func.value))
+  def keys_under (chain):
+    env = q.Env({'self._chain': '<chain>' if chain else None, 'self._masks': {2}, 'self._ports': [q.Rec(port_no=4)]}, [(chk, [1, 2, 3])])
+    out = set()
+    for p_, e_ in q.paths_under(repo, mod, g, env, g.entry, [n for n in g.nodes if n.kind == 'return'], pc, limit=50):
+      rn_ = p_[-1]
+      try: v_ = q.eval_env2(repo, mod, rn_.ast.value, e_, pc)
+      except Exception: v_ = '?'
+      try: out.add(tuple(sorted(v_)))
+      except Exception: out.add('?')
+    return out
+  k1, k0 = keys_under(True), keys_under(False)
+  if '?' in k1 or '?' in k0 or not k1 or not k0:
+    ctx.undecided('R-AGREE', ks, "keys = originally reported numbers minus masked ones plus own", "keys() could not be evaluated on the sample collection (%s)" % txt[:4], ks, 'D1')
+  else:
+    good = k1 == {(1, 3, 4)} and k0 == {(4,)}
+    ctx.ob('R-AGREE', ks, "keys = originally reported numbers minus masked ones plus own", good, "{1,2,3} - {2} + {4} -> {1,3,4}" if good else
+           "with originally reported ports 1,2,3, port 2 deleted and port 4 added, keys() yields %s (and %s without a chain): expected [1, 3, 4] / [4]" % (sorted(k1), sorted(k0)), ks, 'D1')
+  # order of the two steps, by evaluation: a number that is both masked and re-added as an own port is a key
+  def keys_readded ():
+    env = q.Env({'self._chain': '<chain>', 'self._masks': {2}, 'self._ports': [q.Rec(port_no=2)]}, [(chk, [1, 2, 3])])
+    out = set()
+    for p_, e_ in q.paths_under(repo, mod, g, env, g.entry, [n for n in g.nodes if n.kind == 'return'], pc, limit=50):
+      try: out.add(tuple(sorted(q.eval_env2(repo, mod, p_[-1].ast.value, e_, pc))))
+      except Exception: out.add('?')
+    return out
+  k2 = keys_readded()
+  if k2 and '?' not in k2:
+    ctx.ob('R-ORDER', ks, "masks are applied before the own ports are merged in", k2 == {(1, 2, 3)}, "a masked number that was re-added as an own port is listed" if k2 == {(1, 2, 3)} else
+           "with port 2 masked and then re-added as an own port, keys() yields %s: the mask hides the collection's own port" % sorted(k2), ks, 'D1')
   for name, must in (('__len__', 'self.keys()'), ('__iter__', 'self.keys()'), ('values', 'self.keys()'), ('items', 'self.keys()'), ('__contains__', 'self[')):
     f = pc.methods.get(name)
     if f is None: ctx.undecided('R-AGREE', pc.qual, "view %s" % name, "method missing", pc, 'D1'); continue
